@@ -78,7 +78,7 @@ func freeID(used map[uint32]bool, id uint32) uint32 {
 // an ENABLED primary.
 func drawBase(rt *rapid.T) *base {
 	// the asymmetric classes have the parsers with the most checks: drawn three times as often
-	classes := append(append([]keys.Class{}, keys.Classes()...), legacyClass, keys.Signature, keys.Signature, keys.Hybrid, keys.Hybrid, keys.JWTSignature, keys.JWTSignature)
+	classes := append(append([]keys.Class{}, keys.Classes()...), legacyClass, keys.Signature, keys.Signature, keys.Signature, keys.Hybrid, keys.Hybrid, keys.JWTSignature, keys.JWTSignature)
 	b := &base{class: rapid.SampledFrom(classes).Draw(rt, "class"), ks: &tinkpb.Keyset{}}
 	n := rapid.IntRange(1, 4).Draw(rt, "nkeys")
 	used := map[uint32]bool{}
@@ -224,23 +224,35 @@ func nestedContainers(m protoreflect.Message, path string, out *[]slot) {
 	}
 }
 
-// deep applies op to the message of (url, value) or, when that message embeds serialized keys /
-// templates, with probability 1/2 to one of those (recursively).
+// deep applies op to the message of (url, value) or to one of the serialized keys / templates it
+// embeds (recursively).  Where to start is drawn; when op is not applicable there, the other
+// places are tried in order.
 func deep(rt *rapid.T, label string, url string, value []byte, format bool, op func(m protoreflect.Message) string) ([]byte, string) {
 	return transform(url, value, format, func(m protoreflect.Message) string {
 		var cs []slot
 		nestedContainers(m, "", &cs)
-		if len(cs) > 0 && rapid.Bool().Draw(rt, label+"_descend") {
-			c := cs[rapid.IntRange(0, len(cs)-1).Draw(rt, label+"_container")]
+		start := 0
+		if len(cs) > 0 {
+			start = rapid.IntRange(0, len(cs)).Draw(rt, label+"_where")
+		}
+		for off := 0; off <= len(cs); off++ {
+			at := (start + off) % (len(cs) + 1)
+			if at == 0 {
+				if d := op(m); d != "" {
+					return d
+				}
+				continue
+			}
+			c := cs[at-1]
 			sub := c.m.Mutable(c.fd).Message()
 			innerURL := sub.Get(field(sub, "type_url")).String()
-			inner, d := deep(rt, label+"_in", innerURL, sub.Get(field(sub, "value")).Bytes(), isKeyTemplate(sub), op)
+			inner, d := deep(rt, fmt.Sprintf("%s_in%d", label, at), innerURL, sub.Get(field(sub, "value")).Bytes(), isKeyTemplate(sub), op)
 			if d != "" {
 				sub.Set(field(sub, "value"), protoreflect.ValueOfBytes(inner))
 				return c.path + "{" + d + "}"
 			}
 		}
-		return op(m)
+		return ""
 	})
 }
 
@@ -688,8 +700,9 @@ var structuralOps = []string{
 }
 
 var materialOps = []string{
-	"typed-field", "typed-field", "typed-field", "typed-field", "ec-point", "ec-point", "mismatch-public", "mismatch-public",
-	"value-bytes", "value-other-type", "type-url", "material-type", "prefix-known-other", "nil-keydata", "key-id",
+	"typed-field", "typed-field", "typed-field", "typed-field", "typed-field", "typed-field", "ec-point", "ec-point", "ec-point",
+	"mismatch-public", "mismatch-public", "mismatch-public", "mismatch-public",
+	"value-bytes", "value-bytes", "value-other-type", "type-url", "type-url", "material-type", "material-type", "prefix-known-other", "prefix-known-other", "nil-keydata", "key-id",
 }
 
 // pickKey draws the index of the entry to mutate; the primary (which the factories use) is preferred.
@@ -697,7 +710,7 @@ func pickKey(rt *rapid.T, label string, ks *tinkpb.Keyset) int {
 	if len(ks.Key) == 0 {
 		return -1
 	}
-	if rapid.IntRange(0, 9).Draw(rt, label+"_on_primary") < 6 {
+	if rapid.IntRange(0, 9).Draw(rt, label+"_on_primary") < 7 {
 		for i, k := range ks.Key {
 			if k != nil && k.KeyId == ks.PrimaryKeyId {
 				return i
@@ -933,13 +946,13 @@ func TestStructuredMutation(t *testing.T) {
 		in := inputs{msg: gen.Bytes(rt, "msg", 40), aad: gen.Bytes(rt, "aad", 20)}
 		ad := gen.BytesOrNil(rt, "keyset_ad", 16)
 		ks := cloneKeyset(b.ks)
-		nops := rapid.IntRange(1, 3).Draw(rt, "nops")
+		nops := rapid.SampledFrom([]int{1, 1, 1, 2, 2, 3}).Draw(rt, "nops")
 		var applied, kinds []string
-		// three cases in ten mutate the keyset structure, one both, the others one or more keys
+		// two cases in ten mutate the keyset structure, one both, the others one or more keys
 		mode := rapid.IntRange(0, 9).Draw(rt, "mode")
 		for i := 0; i < nops; i++ {
 			label := fmt.Sprintf("op%d", i)
-			structural := mode < 3 || (mode == 3 && i == 0)
+			structural := mode < 2 || (mode == 2 && i == 0)
 			ops := materialOps
 			if structural {
 				ops = structuralOps
@@ -994,12 +1007,90 @@ func TestStructuredMutation(t *testing.T) {
 		if tr := os.Getenv("C14_TRACE"); tr != "" && strings.Contains(strings.Join(kinds, ","), tr) && strings.HasPrefix(outcome, "accepted") {
 			fmt.Printf("TRACE %s: %s\n%s\n", outcome, e.what, ksText(ks))
 		}
+		if strings.HasPrefix(outcome, "accepted") && strings.Contains(strings.Join(applied, ";"), ".version:") {
+			// not a violation of the property text (it does not demand that other versions are refused);
+			// recorded so that the evidence shows whether any parser let a changed version field through
+			evid.Add("accepted_after_version_field_change", 1)
+		}
 		evid.Add("outcome_"+outcome, 1)
 		for _, k := range kinds {
 			evid.Add("op_"+k, 1)
 		}
 		evid.Case(fmt.Sprintf("%s/%s/%s", kind, ptype, outcome), nontrivial, evid.NewH().B(fingerprint(ks)).B(ad).B(in.msg).Sum(), func() any {
 			return map[string]any{"class": string(b.class), "base": b.desc, "mutations": applied, "outcome": outcome, "keyset": ksText(ks)}
+		})
+	})
+}
+
+// asymmetricTypes: the key types whose private key proto embeds the public key.
+var asymmetricTypes = []string{"Ecdsa", "Ed25519", "RsaSsaPkcs1", "RsaSsaPss", "MlDsa", "SlhDsa", "CompositeMlDsa", "Hpke", "EciesAeadHkdf", "JwtEcdsa", "JwtRsaSsaPkcs1", "JwtRsaSsaPss", "JwtMlDsa"}
+
+// TestPublicPartMismatch is TestStructuredMutation restricted to one operator family: the primary
+// is a private key of one of the asymmetric types and its embedded public part is replaced by
+// another well-formed public key (or its point is rewritten).  The oracle is the general one: the
+// keyset is rejected, or the primitives of the handle are self-consistent (what the private half
+// signs verifies under Public(); what Public() encrypts decrypts) - SLH-DSA excepted.
+func TestPublicPartMismatch(t *testing.T) {
+	rapid.Check(t, func(rt *rapid.T) {
+		detrand.Seed(rapid.Uint64().Draw(rt, "entropy"))
+		typ := rapid.SampledFrom(asymmetricTypes).Draw(rt, "type")
+		info := keys.DrawTypeUsable(rt, "k", typ)
+		if !serializable(info) {
+			info = keys.DrawTypeUsable(rt, "k_alt", "RsaSsaPkcs1")
+		}
+		id := info.ID
+		if !info.HasID {
+			id = gen.KeyID(rt, "raw_id")
+		}
+		ks := &tinkpb.Keyset{PrimaryKeyId: id, Key: []*tinkpb.Keyset_Key{entryOf(rt, info.Key, id, tinkpb.KeyStatusType_ENABLED)}}
+		desc := []string{info.Desc}
+		if rapid.IntRange(0, 3).Draw(rt, "second_key") == 0 { // a healthy non-primary key of the same type
+			other := keys.DrawTypeUsable(rt, "k2", info.Type)
+			oid := freeID(map[uint32]bool{id: true}, other.ID)
+			if !other.HasID {
+				oid = freeID(map[uint32]bool{id: true}, gen.KeyID(rt, "raw_id2"))
+			} else if oid != other.ID {
+				if sib, ok := other.WithVariantID(other.Variant, oid); ok {
+					other = sib
+				}
+			}
+			if serializable(other) {
+				ks.Key = append(ks.Key, entryOf(rt, other.Key, oid, rapid.SampledFrom(knownStatuses).Draw(rt, "k2_status")))
+				desc = append(desc, other.Desc)
+			}
+		}
+		base := cloneKeyset(ks)
+		op := rapid.SampledFrom([]string{"mismatch-public", "mismatch-public", "ec-point"}).Draw(rt, "op")
+		kd := ks.Key[0].KeyData
+		var f func(m protoreflect.Message) string
+		if op == "ec-point" {
+			f = opPoint(rt, "p", false)
+		} else {
+			f = opMismatch(rt, "m")
+		}
+		nv, d := deep(rt, "deep", kd.TypeUrl, kd.Value, false, f)
+		if d == "" && op == "ec-point" { // no EC point in this type
+			op = "mismatch-public"
+			nv, d = deep(rt, "deep2", kd.TypeUrl, kd.Value, false, opMismatch(rt, "m2"))
+		}
+		if d == "" {
+			rt.Fatalf("harness: operator %s not applicable to %s", op, info.Desc)
+		}
+		kd.Value = nv
+		in := inputs{msg: gen.Bytes(rt, "msg", 40), aad: gen.Bytes(rt, "aad", 20)}
+		in.lite = hasSLH(ks) && rapid.IntRange(0, 3).Draw(rt, "slh_sign") != 0
+		ad := gen.BytesOrNil(rt, "keyset_ad", 16)
+		e := &env{f: rt, ksText: func() string { return ksText(ks) }}
+		e.what = fmt.Sprintf("base keys: %s; mutation: %s (%s) %s; msg=%x aad=%x keyset_ad=%x", strings.Join(desc, " | "), op, shortType(kd.TypeUrl), d, in.msg, in.aad, ad)
+		outcome, _ := e.decide(ks, ad, in)
+		evid.Add("outcome_"+outcome, 1)
+		evid.Add("op_"+op, 1)
+		kindOf := d
+		if i := strings.LastIndex(d, " "); i >= 0 {
+			kindOf = d[i+1:]
+		}
+		evid.Case(fmt.Sprintf("%s/%s/%s/%s", op, info.Type, kindOf, outcome), !proto.Equal(base, ks), evid.NewH().B(fingerprint(ks)).B(ad).B(in.msg).Sum(), func() any {
+			return map[string]any{"base": desc, "mutation": d, "outcome": outcome, "keyset": ksText(ks)}
 		})
 	})
 }
